@@ -219,6 +219,10 @@ func (j *c04Judge) visit(acc *dtAcc, vr *dtVariant, v *dtVal, pk bool) {
 	if prev != nil {
 		j.twoRows(acc, vr, prev, v, maxLen, pmode, rtol, reg)
 	}
+	// ---- leg 6: one RowPackage object decodes this row and then a NULL row
+	if acc.nth%8 == 2 && vr.Class != refdata.ClassFixed {
+		j.rowThenNull(acc, vr, v, maxLen, nil)
+	}
 	// ---- leg 5: one row with two columns (the previous value of whatever
 	// variant, then this one); both are read after the row was decoded
 	if acc.lastAny != nil && acc.nth%8 == 4 {
@@ -226,6 +230,34 @@ func (j *c04Judge) visit(acc *dtAcc, vr *dtVariant, v *dtVal, pk bool) {
 	}
 	cp2 := *v
 	acc.lastAny, acc.lastAnyVr = &cp2, vr
+}
+
+func (j *c04Judge) rowThenNull(acc *dtAcc, vr *dtVariant, v *dtVal, maxLen int, tp *refdata.TextPtr) {
+	re, err := dtRefEncode(vr, v)
+	if err != nil {
+		return
+	}
+	if (vr.K == dkBytes || vr.K == dkStr) && tp == nil && len(v.B) > maxLen {
+		return
+	}
+	f := dtRefField(vr, v, maxLen)
+	acc.evals++
+	acc.counts["row_then_null/"+vr.Name]++
+	got, stage, err, pi := dtPkgRowThenNull(f, re.bs, tp)
+	cs := dtCase{Type: vr.label(), Dir: "row-then-null", V: *v, Wire: hex.EncodeToString(re.bs)}
+	null := dtVal{K: dkNil}
+	switch {
+	case stage == "harness":
+		return
+	case pi != nil:
+		j.agg.add("panic|"+pi.Frame, vr, "", fmt.Sprintf("one ROW package decoding %s and then a NULL row panicked in %s: %s", dtDescribe(v), stage, pi.Value), cs)
+	case err != nil:
+		j.agg.add("row-then-null", vr, "error", fmt.Sprintf("one ROW package decoding %s and then a NULL row: stage %s failed: %v", dtDescribe(v), stage, err), cs)
+	default:
+		if ok, why := dtSameValue(vr, &null, got, dtCmpExact, 0); !ok {
+			j.agg.add("row-then-null", vr, "not-null", fmt.Sprintf("a ROW package object that had decoded %s decoded a NULL row next; its value then: %s", dtDescribe(v), why), cs)
+		}
+	}
 }
 
 func (j *c04Judge) colMax(vr *dtVariant) int {
@@ -325,6 +357,7 @@ func (j *c04Judge) rowTextPtr(acc *dtAcc, vr *dtVariant, v *dtVal, reg string) {
 	f := dtRefField(vr, v, 2147483647)
 	acc.evals++
 	acc.counts["rows/"+vr.Name]++
+	j.rowThenNull(acc, vr, v, 2147483647, tp)
 	got, stage, err, pi := dtPkgRowDecode(f, re.bs, tp)
 	switch {
 	case stage == "harness":
@@ -520,6 +553,19 @@ func runC04(c *Ctx) {
 			return
 		}
 		acc := newDtAcc(r)
+		if cs.Dir == "row-then-null" && vr.Class != refdata.ClassTextPtr {
+			ml := vr.Len
+			if vr.K == dkBytes || vr.K == dkStr {
+				ml = len(cs.V.B)
+				if vr.Class == refdata.ClassLen1 {
+					ml = 255
+				}
+			}
+			j.rowThenNull(acc, vr, &cs.V, ml, nil)
+			acc.flush()
+			j.agg.flush(r, true)
+			return
+		}
 		j.replayPrev = cs.Prev
 		if cs.PrevType != "" {
 			j.replayPrevVr = dtFind(cs.PrevType)
